@@ -115,6 +115,12 @@ func (f *localFileEntryFactory) Create(name string, state FileState) (FileEntry,
 	if strings.HasPrefix(name, "/") || strings.HasSuffix(name, "/") || strings.HasPrefix(name, "../") {
 		return nil, ErrInvalidName
 	}
+	// A name that is itself a dot segment is clean but does not name an entry
+	// below the state directory: ".." resolves to the parent of the state
+	// directory and "." to the state directory itself.
+	if name == "." || name == ".." {
+		return nil, ErrInvalidName
+	}
 	return newLocalFileEntry(state, name, f.GetRelativePath(name)), nil
 }
 
